@@ -27,6 +27,7 @@ BOUNDS = {"quick": "all programs of depth <= 3 over the alphabet, both roles, 6 
           "thorough": "all programs of depth <= 4, both roles, 6 hash seeds"}
 ASSUMPTIONS = ["one more process runs with hash seed 0 and clocks (time.time / monotonic / perf_counter) that advance an hour per reading",
                "one more process runs every program 500 frames down the interpreter stack (recursion limit 1000)",
+               "isolation layer: every program is also run as the first thing a process does (a child forked before any connection existed) and compared with its run after all the others",
                "hash seeds are sampled (K of 2^32): 0,1,2,3 and two derived from VERIF_SEED; wall-clock and process identity vary freely between the K runs"]
 
 
@@ -59,6 +60,10 @@ def alphabet(client):
         # the same fields handed over as the hpack tuple classes (equal to the plain tuples, different on the wire)
         call("req1-ni", "send_headers", 1, H.REQ + [(b"cookie", b"a=b"), NeverIndexedHeaderTuple(b"x-a", b"1"), HeaderTuple(b"x-b", b"2")])
         rx("rx-resp-2cl", wire.headers(1, sb(H.RESP + [(b"content-length", b"3"), (b"content-length", b"5")])))
+        # a complete 204 response that announces a body it does not have
+        rx("rx-resp-204-cl-es", wire.headers(1, sb([(b":status", b"204"), (b"content-length", b"5")]), es=True))
+        # a request naming three different hosts (:authority and two Host fields)
+        call("req1-two-hosts", "send_headers", 1, H.REQ + [(b"host", b"a.example"), (b"host", b"b.example")])
         rx("rx-data1-es", wire.data(1, b"abc", es=True))
         call("req1-noauth", "send_headers", 1, [(b":method", b"GET"), (b":scheme", b"https"), (b":path", b"/")])
         call("req3-resp-pseudo", "send_headers", 3, H.REQ + [(b":status", b"200")])
@@ -74,6 +79,7 @@ def alphabet(client):
         call("resp1", "send_headers", 1, H.RESP + [(b"set-cookie", b"a"), (b"x-a", b"1")])
         call("resp1-ni", "send_headers", 1, H.RESP + [(b"set-cookie", b"a"), NeverIndexedHeaderTuple(b"x-a", b"1")])
         rx("rx-req1-2cl", wire.headers(1, sb(H.REQ_POST + [(b"content-length", b"3"), (b"content-length", b"5")])))
+        rx("rx-req1-two-hosts", wire.headers(1, sb(H.REQ + [(b"host", b"a.example"), (b"host", b"b.example")])))
         rx("rx-data1-es", wire.data(1, b"abc", es=True))
         call("resp1-reqpseudo", "send_headers", 1, H.RESP + [(b":path", b"/"), (b":method", b"GET"), (b":scheme", b"https")])
         call("push", "push_stream", 1, 2, H.REQ)
@@ -264,7 +270,62 @@ def isolation_main(role, depth, outpath, reverse=False):
                    "digests": {",".join(map(str, p)): d for p, d in first.items()}}, fh)
 
 
-def _run_isolation(depth, roles):
+def pristine_main(role, depth, shard, nshards, outpath, full):
+    """Every selected program run as the FIRST thing a process does: in a child forked from this process, in which no
+    connection has existed, no frame has been parsed and no header validated yet. (fork costs about 0.2 s in this sandbox:
+    the quick tier takes the programs of length 1 and those of length 2 that begin by opening stream 1; the thorough tier all.)"""
+    sys.path.insert(0, os.path.dirname(os.path.dirname(os.path.dirname(os.path.abspath(__file__)))))
+    client = role == "client"
+    A = list(alphabet(client))
+    A.append(("cfg-header-encoding", ("cfg", "header_encoding", "utf-8")))
+    A.append(("cfg-no-outbound-normalisation", ("cfg", "normalize_outbound_headers", False)))
+    A.append(("cfg-no-inbound-validation", ("cfg", "validate_inbound_headers", False)))
+    names = [a[0] for a in A]
+    openers = [i for i, n in enumerate(names) if n in ("req1", "rx-req1", "exchange1-we-end-last", "rx-preface+settings3")]
+    progs = [(i,) for i in range(len(A))]
+    if depth > 1:
+        progs += [(i, j) for i in (range(len(A)) if full else openers) for j in range(len(A))]
+    progs = progs[shard::nshards]
+    import h2.config        # noqa: F401 - imported (not used) here, so that the children do not each import it again
+    import h2.connection    # noqa: F401
+
+    def step(conn, act):
+        if act[0] == "cfg":
+            setattr(conn.config, act[1], act[2])
+            return _digest("cfg", act[1])
+        return _step(conn, act)[0]
+
+    out = {}
+    for prog in progs:
+        r, w = os.pipe()
+        pid = os.fork()
+        if pid == 0:
+            code = 1
+            try:
+                os.close(r)
+                conn = _fresh_default(client)
+                dg = None
+                for i in prog:
+                    dg = step(conn, A[i][1])
+                os.write(w, str(dg).encode())
+                code = 0
+            finally:
+                os._exit(code)
+        os.close(w)
+        buf = b""
+        while True:
+            chunk = os.read(r, 4096)
+            if not chunk:
+                break
+            buf += chunk
+        os.close(r)
+        os.waitpid(pid, 0)
+        out[",".join(map(str, prog))] = buf.decode()
+    with open(outpath, "w") as fh:
+        json.dump({"digests": out}, fh)
+
+
+def _run_isolation(depth, roles, full_pristine=False):
     import tempfile
     here = os.path.dirname(os.path.dirname(os.path.dirname(os.path.abspath(__file__))))
     tmpd = tempfile.mkdtemp(prefix="c28iso-")
@@ -276,6 +337,15 @@ def _run_isolation(depth, roles):
             code = ("import sys; sys.path.insert(0, %r); from h2mc import env; from h2mc.checks import c28; "
                     "c28.isolation_main(%r, %d, %r, %r)" % (here, role, depth, out, rev))
             procs.append((role, rev, out, subprocess.Popen([sys.executable, "-c", code], env=env)))
+    NP = 6
+    pprocs = []
+    for role in roles:
+        for sh in range(NP):
+            out = os.path.join(tmpd, "pristine-%s-%d.json" % (role, sh))
+            env = dict(os.environ, PYTHONHASHSEED="0", PYTHONPATH=here)
+            code = ("import sys; sys.path.insert(0, %r); from h2mc import env; from h2mc.checks import c28; "
+                    "c28.pristine_main(%r, %d, %d, %d, %r, %r)" % (here, role, depth, sh, NP, out, bool(full_pristine)))
+            pprocs.append((role, out, subprocess.Popen([sys.executable, "-c", code], env=env)))
     res = {}
     for role, rev, out, p in procs:
         if p.wait() != 0:
@@ -292,6 +362,17 @@ def _run_isolation(depth, roles):
             fwd["differing"] = fwd["differing"] + other[:50]
             fwd["n_differing"] += len(other)
             fwd["order_dependent"] = len(other)
+    for role, out, p in pprocs:
+        if p.wait() != 0:
+            raise RuntimeError("c28 pristine-process worker failed (%s)" % role)
+        r = json.load(open(out))
+        os.unlink(out)
+        fwd = res[role]
+        other = [[int(x) for x in k.split(",")] for k in sorted(r["digests"]) if str(fwd["digests"].get(k)) != r["digests"][k]]
+        fwd["differing"] = fwd["differing"] + other[:50]
+        fwd["n_differing"] += len(other)
+        fwd["first_in_process_dependent"] = fwd.get("first_in_process_dependent", 0) + len(other)
+        fwd["first_in_process_programs"] = fwd.get("first_in_process_programs", 0) + len(r["digests"])
     for role in res:
         res[role].pop("digests", None)
     os.rmdir(tmpd)
@@ -436,7 +517,7 @@ def run(ctx):
     ctx.notes["hash_seeds"] = seeds
     # ---- same-process isolation layer
     idepth = 2 if ctx.tier == "quick" else 3
-    iso = _run_isolation(idepth, roles)
+    iso = _run_isolation(idepth, roles, full_pristine=(ctx.tier != "quick"))
     total = 0
     for role in roles:
         r = iso[role]
@@ -450,6 +531,8 @@ def run(ctx):
                                   "of the same process have run their programs (%d of %d programs differ)" % (role, prog, r["n_differing"], r["programs"]),
                            "case": {"layer": "isolation", "role": role, "program": prog, "path": path, "depth": idepth}})
     ctx.fanouts.append({"harness": "c28-isolation-depth%d" % idepth, "evaluations": 2 * total,
-                        "outcomes": {"programs": total, "passes": 2}, "nontrivial": total, "states": total,
-                        "domain": "all programs of depth <= %d over the alphabet + 3 run-time configuration switches, each run twice in one process on freshly constructed connections, and once more in a second process in the opposite order" % idepth,
+                        "outcomes": {"programs": total, "passes": 2,
+                                     "programs-also-run-as-the-first-thing-a-process-does": sum(iso[r].get("first_in_process_programs", 0) for r in roles)},
+                        "nontrivial": total, "states": total,
+                        "domain": "all programs of depth <= %d over the alphabet + 3 run-time configuration switches, each run twice in one process on freshly constructed connections, once more in a second process in the opposite order, and (programs of length 1, and of length 2 that begin by opening stream 1; thorough: all of length <= 2) as the first thing a forked process does" % idepth,
                         "wall_s": 0})
